@@ -16,12 +16,13 @@ package c09
 
 import (
 	"context"
+	"encoding/json"
 	"fmt"
 	"math/rand/v2"
 	"os"
 	"path/filepath"
-	"sort"
 	"strings"
+	"sync/atomic"
 	"testing"
 
 	remoteexecution "github.com/bazelbuild/remote-apis/build/bazel/remote/execution/v2"
@@ -206,7 +207,7 @@ type problem struct {
 type harness struct {
 	r       *ev.Run
 	tmp     string
-	runSeq  int
+	runSeq  atomic.Int64
 	seedStr string
 }
 
@@ -262,8 +263,7 @@ func (h *harness) runOnce(spec *actionSpec, cfg runConfig) *observation {
 	report := func(sig, format string, args ...any) {
 		obs.Problems = append(obs.Problems, problem{Sig: sig, Detail: fmt.Sprintf(format, args...)})
 	}
-	h.runSeq++
-	buildRoot := filepath.Join(h.tmp, fmt.Sprintf("run%d", h.runSeq))
+	buildRoot := filepath.Join(h.tmp, fmt.Sprintf("run%d", h.runSeq.Add(1)))
 	if err := os.Mkdir(buildRoot, 0o777); err != nil {
 		panic(err)
 	}
@@ -571,6 +571,52 @@ func (h *harness) judge(spec *actionSpec, cfg runConfig, obs *observation) {
 	r.Hash(obs.hash(), obs.Triggered)
 }
 
+// replay re-runs exactly the case recorded in a witness file.
+func (h *harness) replay(file string) {
+	raw, err := os.ReadFile(file)
+	if err != nil {
+		h.r.Inconclusive("cannot read replay file: %v", err)
+		return
+	}
+	var doc struct {
+		Witness struct {
+			Case           *int   `json:"case"`
+			BatchSize      int    `json:"batch_size"`
+			PutConcurrency int64  `json:"put_concurrency"`
+			FaultAt        int    `json:"fault_at"`
+			FaultKind      string `json:"fault_kind"`
+			Action         *struct {
+				Index int `json:"index"`
+			} `json:"action"`
+		} `json:"witness"`
+	}
+	if err := json.Unmarshal(raw, &doc); err != nil {
+		h.r.Inconclusive("cannot parse replay file: %v", err)
+		return
+	}
+	w := doc.Witness
+	if w.Action == nil {
+		if w.Case == nil {
+			h.r.Inconclusive("replay file names neither an action nor a batch case")
+			return
+		}
+		runBatchCase(h.r, *w.Case)
+		return
+	}
+	kind := outkit.FaultNone
+	for _, k := range []outkit.FaultKind{outkit.FaultErrDiscard, outkit.FaultErrAfterRead, outkit.FaultSticky, outkit.FaultCancel} {
+		if k.String() == w.FaultKind {
+			kind = k
+		}
+	}
+	spec := genAction(h.r.Rand(9, uint64(w.Action.Index)), w.Action.Index)
+	cfg := runConfig{BatchSize: w.BatchSize, PutConcurrency: w.PutConcurrency, FaultAt: w.FaultAt, Kind: kind}
+	h.r.Case("replay action %d batch %d fault %s at %d", w.Action.Index, cfg.BatchSize, kind, cfg.FaultAt)
+	h.judge(spec, cfg, h.runOnce(spec, cfg))
+}
+
+const workers = 4
+
 func TestCheck(t *testing.T) {
 	r := ev.Start("C09")
 	defer r.Finish()
@@ -586,7 +632,9 @@ func TestCheck(t *testing.T) {
 		"sticky-error-consumed-by-flush", "blob-skipped-as-present", "context-cancelled",
 		"fault-in-cacheable-successful-action",
 	} {
-		r.Floor(s, 10)
+		if r.ReplayFile() == "" {
+			r.Floor(s, 10)
+		}
 	}
 
 	tmp, err := os.MkdirTemp("", "verif-c09-")
@@ -596,13 +644,19 @@ func TestCheck(t *testing.T) {
 	defer os.RemoveAll(tmp)
 	h := &harness{r: r, tmp: tmp, seedStr: fmt.Sprint(r.Seed())}
 
+	if rf := r.ReplayFile(); rf != "" {
+		h.replay(rf)
+		return
+	}
+
 	runBatchHarness(r)
 
-	nActions := r.Pick(16, 300)
+	nActions := r.Pick(16, 200)
 	batchSizes := []int{1, 2, 3, 100}
-	for ai := 0; ai < nActions; ai++ {
+	outkit.ParallelFor(nActions*len(batchSizes), workers, func(unit int) {
+		ai := unit / len(batchSizes)
 		spec := genAction(r.Rand(9, uint64(ai)), ai)
-		for _, bs := range batchSizes {
+		for _, bs := range batchSizes[unit%len(batchSizes) : unit%len(batchSizes)+1] {
 			clean := runConfig{BatchSize: bs, PutConcurrency: 1}
 			r.Case("action %d batch %d clean", ai, bs)
 			base := h.runOnce(spec, clean)
@@ -643,6 +697,5 @@ func TestCheck(t *testing.T) {
 				h.judge(spec, cfg, obs)
 			}
 		}
-	}
-	_ = sort.Strings
+	})
 }
